@@ -368,6 +368,8 @@ def jagged(v, J):
     """v[J] for a jagged index J (lists of int / bool / None leaves) matching v's list structure"""
     if v is None:
         return None
+    if isinstance(v, dict):
+        return {f: jagged(e, J) for f, e in v.items()}      # through a record: the same index into every field
     if all(isinstance(k, bool) for k in J) and len(J) > 0:
         if len(J) != len(v):
             raise IndexErr("boolean jagged index of the wrong length")
